@@ -70,7 +70,7 @@ func runCompileCase(rq *request) M {
 	ev["out"] = M{"o": "ok", "nil_expr": e == nil}
 	ev["must_ok"] = !safeMustCompile(src) // must not panic
 	if e != nil {
-		ev["ast"] = astOf(verifNode(e))
+		ev["ast"] = astCps(astOf(verifNode(e)))
 		_, sok := safeString(e)
 		ev["str_ok"] = sok
 		if strings.Contains(src, "function") || strings.Contains(src, "λ") {
